@@ -50,6 +50,127 @@ fn server_log(mut got: ResMut<Got>, slots: Res<Slots>, mut a: EventReader<FromCl
     }
 }
 
+#[derive(Event, Serialize, Deserialize, Clone)]
+struct UpT(u32);
+
+/// one log per app for `backendx`: `D:` an event from the server, `R:` an event from a remote client, `L:` a local re-emission
+fn x_log(
+    mut got: ResMut<Got>,
+    mut a: EventReader<DownO>,
+    mut b: EventReader<DownU>,
+    mut c: EventReader<FromClient<UpO>>,
+    mut d: EventReader<FromClient<UpU>>,
+) {
+    for e in a.read() {
+        got.0.push(format!("D:0.{}.{}.{}", e.0, e.1.len(), ok(e.0, &e.1)));
+    }
+    for e in b.read() {
+        got.0.push(format!("D:1.{}.{}.{}", e.0, e.1.len(), ok(e.0, &e.1)));
+    }
+    for e in c.read() {
+        got.0.push(format!("{}:0.{}.{}.{}", if e.client == SERVER { "L" } else { "R" }, e.event.0, e.event.1.len(), ok(e.event.0, &e.event.1)));
+    }
+    for e in d.read() {
+        got.0.push(format!("{}:1.{}.{}.{}", if e.client == SERVER { "L" } else { "R" }, e.event.0, e.event.1.len(), ok(e.event.0, &e.event.1)));
+    }
+}
+
+fn x_observe(t: Trigger<FromClient<UpT>>, mut got: ResMut<Got>) {
+    got.0.push(format!("{}:2.{}.0.1", if t.client == SERVER { "L" } else { "R" }, t.event.0));
+}
+
+fn build_x() -> App {
+    let mut app = build();
+    app.add_client_trigger::<UpT>(Channel::Ordered).add_observer(x_observe).add_systems(Update, x_log);
+    app.finish();
+    app
+}
+
+/// `backendx <step>/<step>/...`: one real server app and any number of real client apps over the example backend, driven step by
+/// step: `Su` server frame, `C<i>u` frame of client i, `sl` sleep, `C<i>new` a new client app with a socket (no frame yet),
+/// `C<i>drop` / `C<i>conn` remove / insert the client's socket resource, `Sstop` / `Sstart` remove / insert the server socket,
+/// `b:<k>:<size>` broadcast from the server, `c<i>:<k>:<size>` event of client i, `t<i>` trigger of client i.  Items are numbered
+/// in script order.  Output: the log of every app.
+pub fn backendx(args: &[&str]) -> String {
+    let mut server = build_x();
+    let sock = ExampleServer::new(0).unwrap();
+    let mut port = sock.local_addr().unwrap().port();
+    server.insert_resource(sock);
+    server.update();
+    let mut clients: Vec<App> = Vec::new();
+    let mut seq = 0u32;
+    for step in args.first().copied().unwrap_or("").split('/').filter(|s| !s.is_empty()) {
+        if std::env::var("BX_DEBUG").is_ok() {
+            if let Some(c) = clients.first() {
+                eprintln!("before {step}: status={:?} up={} from={}", c.world().resource::<RepliconClient>().status(), c.world().resource::<Events<UpO>>().len(), c.world().resource::<Events<FromClient<UpO>>>().len());
+            }
+        }
+        if step == "Su" {
+            server.update();
+        } else if step == "sl" {
+            std::thread::sleep(Duration::from_millis(3));
+        } else if step == "Sstop" {
+            server.world_mut().remove_resource::<ExampleServer>();
+        } else if step == "Sstart" {
+            let sock = ExampleServer::new(0).unwrap();
+            port = sock.local_addr().unwrap().port();
+            server.insert_resource(sock);
+        } else if let Some(rest) = step.strip_prefix('C') {
+            let digits: String = rest.chars().take_while(|c| c.is_ascii_digit()).collect();
+            let i: usize = digits.parse().unwrap();
+            match &rest[digits.len()..] {
+                "new" => {
+                    let mut c = build_x();
+                    c.insert_resource(ExampleClient::new(port).unwrap());
+                    clients.push(c);
+                }
+                "u" => clients[i].update(),
+                "drop" => {
+                    clients[i].world_mut().remove_resource::<ExampleClient>();
+                }
+                "conn" => {
+                    let s = ExampleClient::new(port).unwrap();
+                    clients[i].insert_resource(s);
+                }
+                "solo" => clients.push(build_x()),
+                _ => return "bad-step".into(),
+            }
+        } else if let Some(i) = step.strip_prefix('t') {
+            seq += 1;
+            let i: usize = i.parse().unwrap();
+            clients[i].world_mut().commands().client_trigger(UpT(seq));
+            clients[i].world_mut().flush();
+        } else {
+            let f: Vec<&str> = step.split(':').collect();
+            let size: usize = f[2].parse().unwrap();
+            seq += 1;
+            let data = payload(seq, size);
+            if f[0] == "b" {
+                if f[1] == "0" {
+                    server.world_mut().send_event(ToClients { mode: SendMode::Broadcast, event: DownO(seq, data) });
+                } else {
+                    server.world_mut().send_event(ToClients { mode: SendMode::Broadcast, event: DownU(seq, data) });
+                }
+            } else {
+                let c: usize = f[0][1..].parse().unwrap();
+                if f[1] == "0" {
+                    clients[c].world_mut().send_event(UpO(seq, data));
+                } else {
+                    clients[c].world_mut().send_event(UpU(seq, data));
+                }
+            }
+        }
+    }
+    let mut parts = Vec::new();
+    let s = std::mem::take(&mut server.world_mut().resource_mut::<Got>().0);
+    parts.push(format!("S={}", if s.is_empty() { "-".into() } else { s.join(",") }));
+    for (i, c) in clients.iter_mut().enumerate() {
+        let g = std::mem::take(&mut c.world_mut().resource_mut::<Got>().0);
+        parts.push(format!("C{i}={}", if g.is_empty() { "-".into() } else { g.join(",") }));
+    }
+    parts.join(";")
+}
+
 fn build() -> App {
     let mut app = App::new();
     app.add_plugins((
